@@ -27,3 +27,64 @@ package checks
 //@   ensures !promapi.tooExpensive(err) && !promapi.unavailable(err) ==> result.Severity == s
 //@   ensures result.Reporter == reporter && len(result.Diagnostics) == 1 && result.Lines == rule.Lines
 //@   safe
+
+// ---------------------------------------------------------------------------------------------
+// C20: removing a rule that other rules depend on is reported, and only then.
+// sel is the list of vector selectors of the candidate rule's query (result of utils.HasVectorSelector, abstract).
+
+//@ spec func alertMatcher(lm *labels.Matcher, name string) bool = lm.Name == "alertname" && lm.Type == labels.MatchEqual && lm.Value == name
+//@ spec func selectsAlert(vs promParser.VectorSelector, name string) bool = (vs.Name == "ALERTS" || vs.Name == "ALERTS_FOR_STATE") &&
+//@      (exists j int :: 0 <= j && j < len(vs.LabelMatchers) && alertMatcher(vs.LabelMatchers[j], name))
+
+//@ func RuleDependencyCheck.usesAlert [C20]
+//@   ghost sel []promParser.VectorSelector
+//@   ghost parsed bool
+//@   after call HasVectorSelector set sel = result0
+//@   after call HasVectorSelector set parsed = true
+//@   ensures result != nil ==> parsed && (exists i int :: 0 <= i && i < len(sel) && selectsAlert(sel[i], name))
+//@   ensures parsed && (exists i int :: 0 <= i && i < len(sel) && selectsAlert(sel[i], name)) ==> result != nil
+//@   ensures result != nil ==> result.kind == "alerting" && result.path == entry.Path.SymlinkTarget
+//@   loop 1 invariant 0 <= iter && iter <= len(sel) && parsed
+//@   loop 1 invariant forall i int :: 0 <= i && i < iter ==> !selectsAlert(sel[i], name)
+//@   loop 2 invariant 0 <= iter && iter <= len(vs.LabelMatchers) && parsed && 1 <= iter1 && iter1 <= len(sel) && vs == sel[iter1-1] &&
+//@              (vs.Name == "ALERTS" || vs.Name == "ALERTS_FOR_STATE")
+//@   loop 2 invariant forall i int :: 0 <= i && i < iter1-1 ==> !selectsAlert(sel[i], name)
+//@   loop 2 invariant forall j int :: 0 <= j && j < iter ==> !alertMatcher(vs.LabelMatchers[j], name)
+
+//@ func RuleDependencyCheck.usesVector [C20]
+//@   ghost sel []promParser.VectorSelector
+//@   ghost parsed bool
+//@   after call HasVectorSelector set sel = result0
+//@   after call HasVectorSelector set parsed = true
+//@   ensures result != nil <==> parsed && (exists i int :: 0 <= i && i < len(sel) && sel[i].Name == name)
+//@   ensures result != nil ==> result.kind == "recording" && result.metric == name && result.path == entry.Path.SymlinkTarget
+//@   loop 1 invariant 0 <= iter && iter <= len(sel) && parsed
+//@   loop 1 invariant forall i int :: 0 <= i && i < iter ==> sel[i].Name != name
+
+// Only entries that still exist at HEAD and parsed cleanly count as dependants or replacements.
+//@ func nonRemovedEntries [C20]
+//@   ensures forall k int :: 0 <= k && k < len(dst) ==> dst[k].State != discovery.Removed && dst[k].PathError == nil && dst[k].Rule.Error.Err == nil
+//@   ensures len(dst) <= len(src)
+//@   loop 1 invariant 0 <= iter && iter <= len(src) && len(dst) <= iter
+//@   loop 1 invariant forall k int :: 0 <= k && k < len(dst) ==> dst[k].State != discovery.Removed && dst[k].PathError == nil && dst[k].Rule.Error.Err == nil
+
+// The check itself: at most one warning, on the removed rule, exactly when some remaining rule depends on it
+// (and no replacement exists / the path is not a symlink: those cases return before the dependants loop).
+//@ func RuleDependencyCheck.Check [C20]
+//@   requires (entry.Rule.RecordingRule != nil) != (entry.Rule.AlertingRule != nil)
+//@   ghost anyDep bool
+//@   after call usesVector set anyDep = anyDep || result0 != nil
+//@   after call usesAlert set anyDep = anyDep || result0 != nil
+//@   at call usesVector assert arg1 == filtered[iter2-1] && arg2 == entry.Rule.RecordingRule.Record.Value
+//@   at call usesAlert assert arg1 == filtered[iter2-1] && arg2 == entry.Rule.AlertingRule.Alert.Value
+//@   loop 1 invariant !anyDep && len(problems) == 0
+//@   loop 2 invariant 0 <= iter && iter <= len(filtered) && len(problems) == 0
+//@   loop 2 invariant anyDep <==> len(broken) > 0
+//@   loop 2 invariant dep != nil ==> anyDep
+//@   loop 3 invariant 0 <= iter && iter <= len(broken) && len(problems) == 0 && anyDep && dep != nil && 1 <= iter2 && iter2 <= len(filtered)
+//@   loop 3 invariant !found
+//@   loop 4 invariant len(problems) == 0 && anyDep
+//@   at return@after-loop2 assert (len(problems) == 1) <==> anyDep
+//@   ensures len(problems) <= 1
+//@   ensures len(problems) == 1 ==> anyDep && problems[0].Severity == Warning && problems[0].Anchor == AnchorBefore &&
+//@              problems[0].Reporter == RuleDependencyCheckName && problems[0].Lines == entry.Rule.Lines
